@@ -169,6 +169,7 @@ SPECS = [
     draw_table.remove_board_from_draw_table(board);
 """,
      "R10.5", "node counts itself before the repetition test: a second occurrence already scores as a draw"),
+    ("C07", "sentinels-at-type-limits", EN, "const POS_INF: i32 = 9999999;\nconst NEG_INF: i32 = -POS_INF;", "const POS_INF: i32 = i32::MAX;\nconst NEG_INF: i32 = i32::MIN;", "R7.9", "NEG_INF = i32::MIN: the first negation of the abort sentinel / of the root window overflows"),
     ("C07", "revert-fix10-plycap", EN,
      """    if ply_from_root >= MAX_DEPTH as i32 {
         return quiesce(board, alpha, beta, search_info, zobrist_hasher);
